@@ -63,6 +63,10 @@ class SpoolCheck(object):
         """Content longer than the 21333-code-point decode chunk, positions on both sides of its multiples."""
         unit = ''.join(r.choice(TEXT_ALPHA if self.text else ['a', 'b', '\n', 'z', '\xff']) for _ in range(97))
         ops = [['write', unit * r.randint(120, 180)] for _ in range(3)]
+        if r.random() < 0.5:
+            # single lines longer than the 21333-unit read chunk (and its multiples)
+            flat = unit.replace('\n', 'n').replace('\r', 'r')
+            ops = [['write', (flat * 700)[:ln] + '\n'] for ln in (r.choice([21332, 21333, 21334, 30000]), r.choice([42666, 45000, 64000]), 10)]
         total = sum(len(o[1]) for o in ops)
         marks = [21333, 42666, 21332, 21334, 30000, total - 1, total - 21333, 1, 25000]
         for _ in range(r.randint(6, 14)):
@@ -247,6 +251,10 @@ class MfrCheck(object):
                 parts.append(b''.join(r.choice(BYTE_ALPHA) for _ in range(ln)).decode('latin-1'))
         kinds = [r.choice(['mem', 'mem', 'file']) for _ in range(n)]
         ops = []
+        if r.random() < 0.25:
+            # members that were just written (cursor at their end, or somewhere inside): the reader is rewound first
+            kinds = [r.choice(['mem-written', 'file-written', 'mem-moved', k]) for k in kinds]
+            ops.append(['seek0'])
         for _ in range(r.randint(1, 10)):
             k = r.choices(['read_n', 'read', 'seek0'], [10, 3, 4])[0]
             ops.append(['read', r.choice([1, 1, 2, 3, 5, 9, 40])] if k == 'read_n' else [k])
@@ -261,6 +269,20 @@ class MfrCheck(object):
                 data = part if h['text'] else part.encode('latin-1')
                 if kind == 'mem':
                     members.append(io.StringIO(data) if h['text'] else io.BytesIO(data))
+                elif kind in ('mem-written', 'mem-moved'):
+                    m = io.StringIO() if h['text'] else io.BytesIO()
+                    m.write(data)
+                    if kind == 'mem-moved':
+                        m.seek(len(data) // 2)
+                    members.append(m)
+                elif kind == 'file-written':
+                    if tmpdir is None:
+                        tmpdir = tempfile.mkdtemp(prefix='verif-c18-')
+                    p = os.path.join(tmpdir, 'm%d' % len(members))
+                    fo = open(p, 'w+', encoding='utf-8', newline='') if h['text'] else open(p, 'w+b')
+                    fo.write(data)
+                    opened.append(fo)
+                    members.append(fo)
                 else:
                     if tmpdir is None:
                         tmpdir = tempfile.mkdtemp(prefix='verif-c18-')
@@ -281,7 +303,10 @@ class MfrCheck(object):
                 return Failure(-1, 'raised[%s]' % type(e).__name__, repr(e), ['init'])
             whole = ''.join(h['parts']) if h['text'] else b''.join(p.encode('latin-1') for p in h['parts'])
             pos = 0
-            for i, op in enumerate(h['ops']):
+            ops = list(h['ops'])
+            if any(k not in ('mem', 'file') for k in h['members']) and ops[:1] != [['seek0']]:
+                ops.insert(0, ['seek0'])       # members not at their start: the statement speaks of reading after seek(0)
+            for i, op in enumerate(ops):
                 if op[0] == 'read' and len(op) > 1:
                     want = ('ok', whole[pos:pos + op[1]])
                     got = outcome(mfr.read, op[1])
